@@ -283,6 +283,12 @@ func (w *World) Snapshot() int {
 	return len(w.snaps) - 1
 }
 
+// Rollback: continue from the snapshot state in a fresh cache layer (writes since the snapshot are dropped).
+func (w *World) Rollback(snap int) {
+	cc, _ := w.snaps[snap].CacheContext()
+	w.Ctx = cc.WithEventManager(sdk.NewEventManager())
+}
+
 func (w *World) At(snap int, f func()) {
 	cur := w.Ctx
 	w.Ctx = w.snaps[snap]
